@@ -2,22 +2,22 @@
 // Solver counter-example(s) produced by Kani's concrete playback; replay with
 //   ./check C01 --replay /verif/replay/cases/c01__q__rs3_structured_n33.rs
 
-// failed check (assertion): assertion failed: r.rank(p) == exp
+// failed check (assertion): assertion failed: r.rank_zero(p) == p - exp
 #[test]
-fn kani_concrete_playback_rs3_structured_n33_11157857613496765169() {
+fn kani_concrete_playback_rs3_structured_n33_17422722028032260636() {
     let concrete_vals: Vec<Vec<u8>> = vec![
-        // 1
-        vec![1],
-        // 4090494975ul
-        vec![255, 255, 207, 243, 0, 0, 0, 0],
-        // 9223644436565557251ul
-        vec![3, 128, 255, 255, 190, 247, 0, 128],
-        // 17006718088563916671ul
-        vec![127, 255, 15, 0, 255, 255, 3, 236],
-        // 4971701103570452786ul
-        vec![50, 1, 188, 255, 207, 7, 255, 68],
-        // 1537ul
-        vec![1, 6, 0, 0, 0, 0, 0, 0],
+        // 0
+        vec![0],
+        // 0ul
+        vec![0, 0, 0, 0, 0, 0, 0, 0],
+        // 0ul
+        vec![0, 0, 0, 0, 0, 0, 0, 0],
+        // 0ul
+        vec![0, 0, 0, 0, 0, 0, 0, 0],
+        // 0ul
+        vec![0, 0, 0, 0, 0, 0, 0, 0],
+        // 9223372036854775808ul
+        vec![0, 0, 0, 0, 0, 0, 0, 128],
     ];
     kani::concrete_playback_run(concrete_vals, crate::c01::q::rs3_structured_n33);
 }
